@@ -73,8 +73,8 @@ def _tv(ctx):
     if hf:
         ctx.inconclusive("C17 MQTT concurrent harness could not drive the broker: %s" % hf[0])
     ctx.evals(sum(1 for e in ev if e["ev"] == "ret"))
-    refused = sum(1 for e in ev if e["ev"] == "ret" and e["code"] == 3)
-    if refused < 5:
+    refused = sum(1 for e in ev if e["ev"] == "ret" and e["code"] != 0)
+    if refused < 5 and not ctx.violations:
         ctx.inconclusive("C17 MQTT concurrent runs are vacuous: only %d refusals" % refused)
 
     def on_reject(seg, whole, tr):
